@@ -325,3 +325,239 @@ pub fn output_locked(cmd: &mut Command) -> std::io::Result<std::process::Output>
     };
     child.wait_with_output()
 }
+
+// ---------------------------------------------------------------------------------------------
+// System-call seam for child processes (LD_PRELOAD shim, faultio/qfault.c): the simulator decides
+// what the n-th open / read / write on a descriptor below the run's scratch directory (and, if
+// asked, on stdout) does — proceed, transfer fewer bytes than requested, fail once with EINTR, or
+// fail with a chosen errno.
+
+#[derive(Clone, Debug, Serialize, Deserialize, PartialEq)]
+pub enum Tok {
+    Ok,
+    /// transfer at most this many bytes (a legal short read / short write)
+    Short(u32),
+    /// fail with EINTR, nothing transferred (the caller is expected to retry)
+    Eintr,
+    /// fail with this errno, nothing transferred
+    Errno(i32),
+}
+
+impl Tok {
+    fn enc(&self) -> String {
+        match self {
+            Tok::Ok => "k".into(),
+            Tok::Short(n) => format!("s{}", (*n).max(1)),
+            Tok::Eintr => "i".into(),
+            Tok::Errno(e) => format!("e{e}"),
+        }
+    }
+    pub fn transparent(&self) -> bool {
+        !matches!(self, Tok::Errno(_))
+    }
+}
+
+#[derive(Clone, Debug, Default, Serialize, Deserialize, PartialEq)]
+pub struct SysPlan {
+    pub reads: Vec<Tok>,
+    pub writes: Vec<Tok>,
+    pub opens: Vec<Tok>,
+}
+
+/// What the shim reports for one tracked call.
+#[derive(Clone, Debug, PartialEq)]
+pub struct SysEvent {
+    pub op: char,
+    pub tok: String,
+    pub asked: i64,
+    pub result: i64,
+}
+
+impl SysEvent {
+    /// evidence name of the fault that actually fired, None for an undisturbed call
+    pub fn fault_name(&self) -> Option<String> {
+        let op = match self.op {
+            'R' => "read",
+            'W' => "write",
+            _ => "open",
+        };
+        let k = self.tok.chars().next().unwrap_or('k');
+        match k {
+            's' if self.result >= 0 && self.result < self.asked => Some(format!("sys_short_{op}")),
+            'i' => Some(format!("sys_eintr_{op}")),
+            'e' => Some(format!("sys_errno_{op}.{}", errno_name(self.tok[1..].parse().unwrap_or(0)))),
+            _ => None,
+        }
+    }
+    pub fn is_hard_error(&self) -> bool {
+        self.tok.starts_with('e')
+    }
+}
+
+pub fn errno_name(e: i32) -> &'static str {
+    match e {
+        libc::EIO => "EIO",
+        libc::ENOSPC => "ENOSPC",
+        libc::EDQUOT => "EDQUOT",
+        libc::EMFILE => "EMFILE",
+        libc::ENFILE => "ENFILE",
+        libc::EACCES => "EACCES",
+        libc::ENOMEM => "ENOMEM",
+        libc::EAGAIN => "EAGAIN",
+        libc::EFBIG => "EFBIG",
+        libc::EROFS => "EROFS",
+        _ => "other",
+    }
+}
+
+impl SysPlan {
+    pub fn env(&self) -> String {
+        let s = |v: &Vec<Tok>| v.iter().map(|t| t.enc()).collect::<Vec<_>>().join(",");
+        format!("R:{};W:{};O:{}", s(&self.reads), s(&self.writes), s(&self.opens))
+    }
+    pub fn is_empty(&self) -> bool {
+        self.reads.is_empty() && self.writes.is_empty() && self.opens.is_empty()
+    }
+}
+
+/// A plan drawn from the decider. `hard` allows errno failures (after which the program may fail);
+/// without it the plan holds only short transfers and EINTR, which a correct program survives.
+/// Most tokens are "proceed": the programs under test issue only a handful of calls per file, so a
+/// fault in every position would mostly test the first one.
+pub fn gen_sysplan(d: &mut Decider, hard: bool) -> SysPlan {
+    fn stream(d: &mut Decider, tag: &'static str, hard: bool, errs: &[i32], open: bool) -> Vec<Tok> {
+        let len = d.choose(tag, 7);
+        let dense = d.coin(tag, 1, 3);
+        let mut v = vec![];
+        let mut hard_used = false;
+        for _ in 0..len {
+            let r = d.choose(tag, if dense { 6 } else { 12 });
+            let t = match r {
+                0 | 1 if !open => Tok::Short(*d.pick(tag, &[1u32, 1, 2, 3, 5, 7, 16, 31, 64, 100, 511, 1000, 4095, 8191])),
+                2 => Tok::Eintr,
+                3 if hard && !hard_used => {
+                    hard_used = true;
+                    Tok::Errno(*d.pick(tag, errs))
+                }
+                _ => Tok::Ok,
+            };
+            v.push(t);
+        }
+        v
+    }
+    SysPlan {
+        reads: stream(d, "sys.r", hard, &[libc::EIO, libc::EIO, libc::ENOMEM, libc::EAGAIN], false),
+        writes: stream(d, "sys.w", hard, &[libc::ENOSPC, libc::ENOSPC, libc::EIO, libc::EDQUOT, libc::EFBIG], false),
+        opens: stream(d, "sys.o", hard, &[libc::EMFILE, libc::EACCES, libc::ENOMEM, libc::ENFILE, libc::EROFS], true),
+    }
+}
+
+/// Simpler plans: one stream emptied, one token dropped or replaced by "proceed".
+pub fn shrink_sysplan(p: &SysPlan) -> Vec<SysPlan> {
+    let mut c = vec![];
+    for which in 0..3 {
+        let get = |q: &SysPlan| match which {
+            0 => q.reads.clone(),
+            1 => q.writes.clone(),
+            _ => q.opens.clone(),
+        };
+        let set = |q: &mut SysPlan, v: Vec<Tok>| match which {
+            0 => q.reads = v,
+            1 => q.writes = v,
+            _ => q.opens = v,
+        };
+        let v = get(p);
+        if v.is_empty() {
+            continue;
+        }
+        let mut q = p.clone();
+        set(&mut q, vec![]);
+        c.push(q);
+        if v.last() == Some(&Tok::Ok) {
+            let mut q = p.clone();
+            let mut w = v.clone();
+            w.pop();
+            set(&mut q, w);
+            c.push(q);
+        }
+        for i in 0..v.len() {
+            if v[i] != Tok::Ok {
+                let mut q = p.clone();
+                let mut w = v.clone();
+                w[i] = Tok::Ok;
+                set(&mut q, w);
+                c.push(q);
+            }
+        }
+    }
+    c
+}
+
+pub fn parse_syslog(p: &Path) -> Vec<SysEvent> {
+    let mut v = vec![];
+    if let Ok(t) = std::fs::read_to_string(p) {
+        for l in t.lines() {
+            let f: Vec<&str> = l.split(' ').collect();
+            if f.len() == 4 {
+                v.push(SysEvent {
+                    op: f[0].chars().next().unwrap_or('?'),
+                    tok: f[1].to_string(),
+                    asked: f[2].parse().unwrap_or(0),
+                    result: f[3].parse().unwrap_or(0),
+                });
+            }
+        }
+    }
+    v
+}
+
+pub fn qfault_so() -> PathBuf {
+    std::env::var("QSIM_QFAULT_SO").map(PathBuf::from).expect("QSIM_QFAULT_SO not set (bin/check builds faultio/qfault.c)")
+}
+
+/// Arm a command with the shim. The log goes next to (not inside) the tracked directory.
+pub fn arm_sys(cmd: &mut Command, tracked_dir: &Path, plan: &SysPlan, track_stdout: bool) -> PathBuf {
+    let mut dir = tracked_dir.to_string_lossy().to_string();
+    if !dir.ends_with('/') {
+        dir.push('/');
+    }
+    let log = PathBuf::from(format!("{}.syslog", dir.trim_end_matches('/')));
+    let _ = std::fs::remove_file(&log);
+    cmd.env("LD_PRELOAD", qfault_so())
+        .env("QFAULT_PLAN", plan.env())
+        .env("QFAULT_DIR", dir)
+        .env("QFAULT_LOG", &log)
+        .env("QFAULT_STDOUT", if track_stdout { "1" } else { "0" });
+    log
+}
+
+/// The shipped binary as a child under the system-call seam. `to_stdout`: the result is printed
+/// (stdout is a pipe read by the harness, and fd 1 is tracked); otherwise it goes to `-o <scratch>/out.txt`.
+pub fn run_child_sys(bin: &Path, argv_tail: &[String], s: &Scratch, plan: &SysPlan, to_stdout: bool) -> (CliResult, Vec<SysEvent>) {
+    let mut args: Vec<String> = argv_tail.to_vec();
+    let out_path = s.path("out.txt");
+    if !to_stdout {
+        args.push("-o".into());
+        args.push(out_path.to_string_lossy().to_string());
+    }
+    let mut cmd = Command::new(bin);
+    cmd.args(&args).stdin(Stdio::null());
+    let log = arm_sys(&mut cmd, &s.dir, plan, to_stdout);
+    let o = match output_locked(&mut cmd) {
+        Ok(o) => o,
+        Err(e) => return (CliResult::Err(format!("spawn: {e}")), vec![]),
+    };
+    let events = parse_syslog(&log);
+    let _ = std::fs::remove_file(&log);
+    let stderr = String::from_utf8_lossy(&o.stderr).to_string();
+    let res = match o.status.code() {
+        Some(0) => {
+            let text = if to_stdout { Some(String::from_utf8_lossy(&o.stdout).to_string()) } else { std::fs::read_to_string(&out_path).ok() };
+            CliResult::Ok(text)
+        }
+        Some(101) => CliResult::Panic(first_line(&stderr)),
+        Some(c) => CliResult::Err(format!("exit {c}: {}", first_line(&stderr))),
+        None => CliResult::Panic(format!("killed by signal: {}", first_line(&stderr))),
+    };
+    (res, events)
+}
